@@ -415,6 +415,38 @@ class Space:
             out[name] = v
         return out
 
+    def assignment_scaled(self, base):
+        """The assignment `base` with every real value multiplied by one big odd-ish factor so that the values
+        become integers that are NOT exactly representable as floats.  Only returned when z3 confirms that
+        the scaled point still satisfies the path condition (true for homogeneous constraint systems such
+        as clock readings and waits).  Used as an extra replay flavour: code that silently rounds numbers
+        through float() looks correct on dyadic values."""
+        import math
+        reals = [(name, c) for (name, c, k) in self.vars if k == 'r']
+        if not reals or any(k not in 'birc' for (_, _, k) in self.vars):
+            return None
+        vals = [Fraction(base[name]) for name, _ in reals]
+        den = 1
+        for v in vals:
+            den = den * v.denominator // math.gcd(den, v.denominator)
+        scale = den * ((1 << 53) + 1)
+        s = z3.Solver()
+        s.set('timeout', 3000)
+        s.add(*self.pc)
+        out = dict(base)
+        for (name, c), v in zip(reals, vals):
+            sv = v * scale
+            out[name] = sv
+            s.add(c == z3.RealVal(sv.numerator) / z3.RealVal(sv.denominator))
+        for name, c, k in self.vars:
+            if k in 'bic' and name not in self.choices:
+                val = base[name]
+                s.add(c == (z3.BoolVal(val) if k == 'b' else z3.IntVal(val)))
+        t = time.perf_counter()
+        r = s.check()
+        self.solver_time += time.perf_counter() - t
+        return out if r == z3.sat else None
+
     @staticmethod
     def _dyadic(v):
         if z3.is_int_value(v):
@@ -480,6 +512,8 @@ class ConcreteSpace:
         if self.real_as is float:
             f = float(v)
             return f if Fraction(f) == v else v
+        if self.real_as is int and v.denominator == 1:
+            return int(v)
         return v
 
     def choose(self, n, label=''):
